@@ -18,6 +18,8 @@ import itertools
 import shutil
 import warnings
 
+from pathlib import Path
+
 import numpy as np
 import pandas as pd
 
@@ -56,6 +58,16 @@ PEP_ALGS = ("qvality", "kde_nnls", "hist_nnls")
 Q_ALGS = ("tdc", "from_peps", "from_counts")
 MONO_TOL = 1e-12
 ALIGN_TOL = 1e-9
+
+
+def _scratch():
+    """Per-case scratch directory (under the run's scratch root; a private temp dir for stand-alone replays)."""
+    import os
+    import tempfile
+
+    if os.environ.get("VERIF_SCRATCH"):
+        return worker_scratch().sub()
+    return Path(tempfile.mkdtemp(prefix="mokaverif_replay_"))
 
 
 # ---------------------------------------------------------------------------------------------
@@ -319,7 +331,7 @@ def check_conf(case, acc):
     df, s, lab = conf_table(case["pi0"], case["sep"], case["nt"], case["nd"], case["round"], case["order"])
     by_id = {f"psm{i}": (float(s[i]), bool(lab[i])) for i in range(len(s))}
     set_chunks(**DEFAULT_CHUNKS)
-    work = worker_scratch().sub()
+    work = _scratch()
     try:
         out = work / "out"
         out.mkdir()
